@@ -53,6 +53,18 @@ def parseArg (j : Json) : Except String (Except ErrKind PyVal) :=
   match j with
   | .null => .ok (.ok .none)
   | _ =>
+    match j.getObjVal? "rows" with
+    | .ok (.str kind) => do
+      let k ← match kind with
+        | "list" => pure SeqKind.list
+        | "tuple" => pure SeqKind.tuple
+        | _ => throw s!"bad rows kind {kind}"
+      let items ← getArr j "items"
+      let rows ← items.toList.mapM (fun r => match r with
+        | .arr a => a.toList.mapM parseAtom
+        | _ => .error "row is not an array")
+      pure (.ok (.rows k rows))
+    | _ =>
     match j.getObjVal? "seq" with
     | .ok (.str kind) => do
       let k ← match kind with
@@ -210,6 +222,8 @@ def kindName : SeqKind → String
 def canonArg : PyVal → Json
   | .atom a => canonAtom a
   | .seq k items => Json.mkObj [("seq", .str (kindName k)), ("items", Json.arr (items.map canonAtom).toArray)]
+  | .rows k items => Json.mkObj [("seq", .str (kindName k)),
+      ("items", Json.arr (items.map (fun r => Json.mkObj [("row", Json.arr (r.map canonAtom).toArray)])).toArray)]
   | .fv n f => Json.mkObj [("fv", Json.arr #[ratJ n, ratJ f])]
   | .qty q => Json.mkObj [("qty", Json.arr #[symJ q.cat, symJ q.unit])]
 
